@@ -29,6 +29,9 @@ ASSUMPTIONS = [
     "the shape x material domain is pinned in this module (12 two-dimensional shapes; 24 expanding solids, 15 "
     "solids whose linearExpansionPercent is identically 0, 12 fluids, Custom); 3-D shapes and DerivedShape are "
     "outside the statement; solids without an expansion model are only checked for the documented refusal",
+    "p.pinNDens (float32, pins x nuclides) and p.detailedNDens (float64 vector) are filled with synthetic values the "
+    "way a pin-level / high-fidelity depletion step leaves them, each independently present or absent; only their "
+    "ratios between states are judged, pinNDens with the float32 tolerance rel 1e-6 (in-place float32 rescaling per step)",
     "absolute number densities at construction are not judged (they carry the documented axial factor); only "
     "ratios between states of one component, and equality between a path and a single jump",
     "components with a linked dimension are not expected to conserve their own mass (their area follows the "
@@ -38,6 +41,7 @@ ASSUMPTIONS = [
 
 REL = 1e-10
 TIGHT = 1e-12
+F32 = 1e-6  # p.pinNDens is stored as float32 and rescaled in place (armi's own test uses rtol 1e-6)
 
 # ------------------------------------------------------------------------------------------------
 # pinned domain
@@ -241,6 +245,25 @@ def _exclude_known(case):
     return case
 
 
+def _extra_arrays(extra, nd):
+    """Pin-wise / high-fidelity density arrays the way a depletion step leaves them on a component:
+    pinNDens float32 (pins x nuclides of the component), detailedNDens float64 vector; some entries exactly 0."""
+    import numpy as np
+
+    pin = det = None
+    if not extra:
+        return pin, det
+    key = ("extra", extra["u"])
+    if extra.get("pin"):
+        nucs = sorted(nd) or ["X"]
+        pin = np.array([[0.0 if _u(*key + ("pz", i, j)) < 0.1 else (nd.get(n, 0.0) or 1e-3) * (0.5 + _u(*key + ("p", i, j)))
+                         for j, n in enumerate(nucs)] for i in range(extra["pin"])], dtype=np.float32)
+    if extra.get("det"):
+        det = np.array([0.0 if _u(*key + ("dz", i)) < 0.15 else 10.0 ** (-12.0 + 11.0 * _u(*key + ("d", i)))
+                        for i in range(extra["det"])], dtype=float)
+    return pin, det
+
+
 def _is_air_defect(exc):
     return isinstance(exc, ValueError) and "Cannot produce T in K" in str(exc)
 
@@ -328,6 +351,12 @@ def single_execute(case):
 
     base = {"area": comp.getArea(cold=True)}
     nd0 = dict(comp.getNumberDensities())
+    pin0, det0 = _extra_arrays(case.get("extra"), nd0)
+    if pin0 is not None:
+        comp.p.pinNDens = pin0.copy()
+    if det0 is not None:
+        comp.p.detailedNDens = det0.copy()  # the setter keeps the object it is given; armi rescales in place
+    out.label("extra:%s%s" % ("pin" if pin0 is not None else "-", "+det" if det0 is not None else ""))
     w = _weights(sorted(nd0))
     out.label("density:zero" if not any(nd0.values()) else "density:positive")
 
@@ -358,7 +387,9 @@ def single_execute(case):
             out.check(_close(area, base["area"], 1e-14), "fluid/area-changed",
                       lambda: "%s %s %s: area %r, cold %r" % (shape, name, what, area, base["area"]))
         nd = dict(comp.getNumberDensities())
-        st_ = {"T": t, "f": ft, "area": area, "nd": nd}
+        st_ = {"T": t, "f": ft, "area": area, "nd": nd,
+               "pin": None if comp.p.pinNDens is None else comp.p.pinNDens.astype(float),
+               "det": None if comp.p.detailedNDens is None else comp.p.detailedNDens.copy()}
         if height is not None:
             vol = comp.getVolume()
             out.check(_close(vol, area * height, TIGHT), "cache/volume-stale",
@@ -379,6 +410,26 @@ def single_execute(case):
                                  shape, name, what, n, a["T"], b["T"], a["nd"][n], b["nd"][n], r,
                                  b["nd"][n] / a["nd"][n] if a["nd"][n] else None)):
                 break
+        arrays(a, b, r, what)
+
+    def arrays(a, b, r, what):
+        """p.pinNDens / p.detailedNDens, when present, follow the same factor; absent stays absent, 0 stays 0."""
+        for key, tol in (("pin", F32), ("det", REL)):
+            x, y = a[key], b[key]
+            pname = "pinNDens" if key == "pin" else "detailedNDens"
+            if x is None or y is None:
+                out.check(x is None and y is None, "density/%s-presence-changed" % pname, "%s %s %s" % (shape, name, what))
+                continue
+            if not out.check(x.shape == y.shape, "density/%s-shape-changed" % pname, "%s %s %s: %s -> %s" % (shape, name, what, x.shape, y.shape)):
+                continue
+            want = x * r
+            bad = abs(y - want) > tol * abs(want)
+            if bad.any():
+                idx = tuple(int(i) for i in list(zip(*bad.nonzero()))[0])
+                out.fail("density/%s-not-scaled-by-inverse-f-squared" % pname,
+                         "%s %s %s: p.%s%s from %.6f C to %.6f C: %r -> %r, expected factor (f1/f2)^2 = %r (numberDensities follow it); "
+                         "detailedNDens %s" % (shape, name, what, pname, list(idx), a["T"], b["T"], float(x[idx]), float(y[idx]), r,
+                                               "absent" if a["det"] is None else "present"))
 
     def conserved(s, what):
         if kind == "fluid":
@@ -454,6 +505,9 @@ def single_execute(case):
                       lambda: "%s %s: after hot write of %s=%r at %.6f C the cold value is %r, expected v/f = %r" % (
                           shape, name, d, v, t_cur, gotc, cold[d]))
             out.check(before == dict(comp.getNumberDensities()), "density/changed-by-setDimension", "%s %s %s" % (shape, name, d))
+            out.check((prev["pin"] is None or (comp.p.pinNDens == prev["pin"]).all())
+                      and (prev["det"] is None or (comp.p.detailedNDens == prev["det"]).all()),
+                      "density/changed-by-setDimension", "%s %s %s: pinNDens/detailedNDens" % (shape, name, d))
             # a dimension write changes the amount of material: new reference for the conservation checks
             base["area"] = comp.getArea(cold=True)
             s = observe(t_cur, "after step %d (hot write of %s)" % (k, d))
@@ -473,7 +527,17 @@ def single_execute(case):
         for d in names:
             if cold[d] != _model_cold(shape, kw)[d]:
                 twin.setDimension(d, cold[d])
+        if pin0 is not None:
+            twin.p.pinNDens = pin0.copy()
+        if det0 is not None:
+            twin.p.detailedNDens = det0.copy()  # the setter keeps the object it is given; armi rescales in place
         twin.setTemperature(t_cur)
+        end = {"T": t_cur, "pin": None if twin.p.pinNDens is None else twin.p.pinNDens.astype(float), "det": twin.p.detailedNDens}
+        for key, tol in (("pin", F32), ("det", REL)):
+            if prev[key] is not None:
+                ok = end[key] is not None and end[key].shape == prev[key].shape and not (abs(end[key] - prev[key]) > tol * abs(prev[key])).any()
+                out.check(ok, "path/end-state-depends-on-path", lambda: "%s %s: p.%s after path %s differs from one jump" % (
+                    shape, name, "pinNDens" if key == "pin" else "detailedNDens", temps))
         for d in names:
             a, b = comp.getDimension(d), twin.getDimension(d)
             out.check(_close(a, b), "path/end-state-depends-on-path",
@@ -541,7 +605,7 @@ def _grid_case(seed, shape, name, k):
     if k == 0:
         # canonical: input at the low end of the window, built in the middle, up to the top, down to the bottom
         return {"shape": shape, "material": name, "scale": 1.0, "q": [0.5, 0.5, 0.5, 0.5], "mult": 7, "nHoles": 7,
-                "tin": 0.0, "t0": 0.5, "mods": None, "parent": True, "height": 10.0,
+                "tin": 0.0, "t0": 0.5, "mods": None, "parent": True, "height": 10.0, "extra": {"pin": 3, "det": 0, "u": 0.5},
                 "path": [{"op": "T", "u": 1.0}, {"op": "T", "u": 0.0}, {"op": "hot", "d": 0, "u": 0.5}, {"op": "T", "u": 0.7}]}
     n = 1 + int(_u(*key + ("n",)) * 6)
     path = []
@@ -557,6 +621,8 @@ def _grid_case(seed, shape, name, k):
         "tin": _frac(*key + ("tin",)), "t0": _frac(*key + ("t0",)),
         "mods": [_u(*key + ("mod", 0)), _u(*key + ("mod", 1))] if _u(*key + ("mods",)) < 0.5 else None,
         "parent": _u(*key + ("p",)) < 0.5, "height": 0.5 + 199.5 * _u(*key + ("ht",)),
+        "extra": {"pin": [0, 0, 0, 1, 3, 7][int(_u(*key + ("xp",)) * 6)], "det": [0, 0, 0, 1, 5, 40][int(_u(*key + ("xd",)) * 6)],
+                  "u": _u(*key + ("xu",))},
         "path": path,
     }
 
@@ -608,6 +674,8 @@ def paths_strategy(tier):
         "mods": st.one_of(st.lists(st.floats(0.0, 1.0), min_size=2, max_size=2), st.none()),
         "parent": st.sampled_from([True, False]),
         "height": st.floats(0.5, 200.0),
+        "extra": st.fixed_dictionaries({"pin": st.sampled_from([3, 0, 1, 7]), "det": st.sampled_from([0, 5, 1, 40]),
+                                        "u": st.floats(0.0, 1.0)}),
     }).map(_exclude_known)
 
 
@@ -1022,7 +1090,8 @@ PARTS = [
               "1..6 further temperatures inside the material's stated window (first draw of a cell: window bottom -> middle -> "
               "top -> bottom), optional hot dimension writes, optional block parent, optional blueprint material modifications. "
               "Oracle with f from linearExpansionPercent only: dimension = cold*f, area = cold area*f^2, densities between any "
-              "two states scale by (f1/f2)^2, A*sum(N_i A_i) constant, getDimension/getArea(Tc=T) preview equals the state "
+              "two states scale by (f1/f2)^2 (also p.pinNDens and p.detailedNDens, each independently present or absent, "
+              "float32 tolerance 1e-6 for pinNDens), A*sum(N_i A_i) constant, getDimension/getArea(Tc=T) preview equals the state "
               "reached, hot write reads back, path end state = single jump, fluids/Custom keep every dimension. "
               "Non-trivial: a step with |dT| >= 50 K whose ends have different dLL",
          bound=lambda t: "12 shapes x (24 expanding solids x %d + 13 fluids/Custom x %d + 15 no-model solids x 1) draws" % (_GRID_N[t], _GRID_NF[t])),
